@@ -56,7 +56,7 @@ def handle (line : String) : String :=
   | "c13" :: rest => (handleC13 rest).getD "BAD-REQUEST"
   | "c14" :: rest => (handleC14 rest).getD "BAD-REQUEST"
   | "c16" :: rest => (handleC16 rest).getD "BAD-REQUEST"
-  | "pdb" :: rest => (handlePdb rest).getD "BAD-REQUEST"
+  | "pdb" :: rest => ((handlePdb rest).orElse fun _ => handlePdbWrite rest).getD "BAD-REQUEST"
   | _ => "BAD-REQUEST"
 
 end PdbModel
